@@ -46,12 +46,50 @@ def reexec_hashseed():
         os.execve(sys.executable, [sys.executable] + sys.argv, env)
 
 
-def scratch_root():
-    base = "/dev/shm" if os.path.isdir("/dev/shm") and os.access("/dev/shm", os.W_OK) else (
+def _scratch_base():
+    return "/dev/shm" if os.path.isdir("/dev/shm") and os.access("/dev/shm", os.W_OK) else (
         os.environ.get("TMPDIR", "/tmp"))
-    root = os.path.join(base, f"vsim-{os.getpid()}")
+
+
+def scratch_root():
+    """Per-process scratch directory under the scratch tree of the check that owns this process."""
+    parent = os.environ.get("VERIF_SCRATCH_PARENT")
+    if not parent:
+        parent = os.path.join(_scratch_base(), f"vsim-{os.getpid()}")
+        os.environ["VERIF_SCRATCH_PARENT"] = parent
+        import atexit
+        owner = os.getpid()
+        atexit.register(lambda: os.getpid() == owner and shutil.rmtree(parent, ignore_errors=True))
+    root = os.path.join(parent, str(os.getpid()))
     os.makedirs(root, exist_ok=True)
     return root
+
+
+def sweep_stale_scratch():
+    """Remove scratch trees whose owning process is gone (killed checks leave them behind)."""
+    base = _scratch_base()
+    try:
+        names = os.listdir(base)
+    except OSError:
+        return
+    for name in names:
+        if not name.startswith("vsim-"):
+            continue
+        try:
+            pid = int(name.split("-")[1])
+        except ValueError:
+            continue
+        if pid == os.getpid():
+            continue
+        try:
+            os.kill(pid, 0)
+            alive = True
+        except ProcessLookupError:
+            alive = False
+        except PermissionError:
+            alive = True
+        if not alive:
+            shutil.rmtree(os.path.join(base, name), ignore_errors=True)
 
 
 def repo_id():
